@@ -257,6 +257,15 @@ func genPlan(r *prng.R, nonBlocking, thorough bool) runPlan {
 		}
 		p.Slots = append(p.Slots, sp)
 	}
+	if nonBlocking && r.Chance(1, 3) && len(p.Slots) >= 2 {
+		// two consumers that stop reading early and at the same time: the relay must give
+		// up on EACH of them for every frame (the slow-consumer timeout is per consumer)
+		for i := 0; i < 2; i++ {
+			p.Slots[i].StartAfter = 0
+			p.Slots[i].Insts = p.Slots[i].Insts[:1]
+			p.Slots[i].Insts[0].StallAfter = r.Range(1, 2)
+		}
+	}
 	return p
 }
 
